@@ -9,7 +9,7 @@ CLAIMED = {
         category="translation_validation",
         text="Every control-flow skeleton of a bounded-exhaustive family is converted by the real converter and then exec(source) and eval(converted) are co-executed symbolically: CrossHair/z3 decide, for every schedule of condition outcomes (<= 5/6) and every iterable length (0..2), that both produce the same trace of statement markers, condition evaluations, iter()/next() calls and the same return value. Bounded: the program dimension is an enumeration, the data dimension is decided by the solver.",
         design_ref="DESIGN.md section 4, C05",
-        note="Trusted: CPython (exec/eval), CrossHair 0.0.110 + z3 (path exploration is exhaustive only when it says 'Confirmed over all paths'), the harness helpers mark/cond/It/log. Bounds: skeletons <= 4 nodes exhaustive (thorough) / 5 nodes sampled, depth <= 3, schedule <= 6, <= 2 items per iterable.",
+        note="Trusted: CPython (exec/eval), CrossHair 0.0.110 + z3 (path exploration is exhaustive only when it says 'Confirmed over all paths'), the harness helpers mark/cond/It/log. Bounds: skeletons <= 4 nodes exhaustive at module/function/class level (thorough) / 5 nodes sampled, depth <= 3, schedule <= 6, <= 2 items per iterable; composed family (interrupt-containing blocks spliced into 33 deeper contexts, 14 686 programs, sampled), mixed bare/valued returns, padded skeletons (statements that lower to nothing), resumed iterators (named iterators with logging close/send/throw, drained after the skeleton).",
         technique="symbolic co-execution of source and converted text under CrossHair (z3), one PEP-316 condition per (skeleton, configuration)",
     ),
 }
@@ -55,15 +55,15 @@ CLAIMED["C02"] = dict(
     category="other",
     text="Program-quantified obligation without a data dimension: family programs, out-of-fragment shape programs and standard-library modules with unsupported statements stripped are converted by the real converter under all 8 option combinations; whenever conversion returns, the text must contain no line break, compile in eval mode and (ast.unparse path) parse back to the emitted AST after removal of the newline. z3 decides the quantified statement over the table; each table entry is decided by CPython's compiler. The line-break obligation for arbitrary string contents is the C04 kernel.",
     design_ref="DESIGN.md section 4, C02",
-    note="The deciding step of each entry is CPython 3.12's compile(), not the solver (stated in the evidence). Bounds: the program families of vf/checks/c02.py; stdlib modules <= 25 kB (quick) / 80 kB (thorough).",
+    note="The deciding step of each entry is CPython 3.12's compile(), not the solver (stated in the evidence). Bounds: the program families of vf/checks/c02.py (incl. the slot product 69 expression slots x 34 expression kinds + 14 index slots x 16 index kinds x module/function/class, and 39 scripts that parse but that CPython refuses to compile); stdlib modules <= 25 kB (quick) / 80 kB (thorough).",
     technique="table extracted by running the real converter + CPython compile(); z3 query over the table",
     engine="z3 (table query) + CPython compiler",
 )
 CLAIMED["C03"] = dict(
     category="other",
-    text="E2: decision tables over the complete (slot x kind) catalogue (95 x 56) are re-extracted on every run by driving the real expr_unparse and CPython's parser; z3 decides that no valid composition is emitted as text that fails to parse back (RT), is wrongly bare (Q2) or wrongly parenthesised (Q3), synthesises an integer stratification of kinds and slots (Q1) and decides that the parenthesisation decision is exactly node precedence > slot precedence (Q4), which lifts the depth-2 table to every depth; node shapes (2493), seeded deep trees and the trees the converter emits are decided as table queries of the same form.",
+    text="E2: decision tables over the complete (slot x kind) catalogue (95 x 56) are re-extracted on every run by driving the real expr_unparse and CPython's parser; z3 decides that no valid composition is emitted as text that fails to parse back (RT), is wrongly bare (Q2) or wrongly parenthesised (Q3), synthesises an integer stratification of kinds and slots (Q1) and decides that the parenthesisation decision is exactly node precedence > slot precedence (Q4); the depth-3 table slot(slot(kind)) (95 x 95 x 56 compositions, ~180 000 valid) is built and decided exhaustively as well, because the depth-2 table does NOT lift to every depth where the context is lexical (f-string fields, a generator as sole call argument); node shapes (2493), seeded deep trees (depth 3-6, sampled) and the trees the converter emits are decided as table queries of the same form.",
     design_ref="DESIGN.md section 4, C03",
-    note="Oracle of every table entry: CPython 3.12's parser. Assumption: the expression grammar is stratified (corroborated by Q1 up to a listed lexical residue and by deep-tree replays). Full-field comparison ignoring ctx/kind/positions.",
+    note="Oracle of every table entry: CPython 3.12's parser. Beyond depth 3 the claim rests on the stratification (Q1/Q4, a corroborated assumption, not a proof -- see DESIGN section 12, round 3) and on the sampled deep trees and the emitted trees. Full-field comparison ignoring ctx/kind/positions.",
     technique="z3 over decision tables extracted from the real unparser (stratification synthesis + refinement queries)",
     engine="z3 (tables re-extracted from /repo on every run)",
 )
@@ -85,19 +85,19 @@ CLAIMED["C09"] = dict(
     category="translation_validation",
     text="The finite matrix (risky identifier x role x converter feature): the identifier set is re-derived on every run from what the converter emits (plus the builtins the generated code calls and a control name); each cell is a small program converted by the real converter and co-executed with the source under CrossHair with symbolic stored values. Distinctness of __ol_ temporaries is checked on every output (real RNG).",
     design_ref="DESIGN.md section 4, C09",
-    note="Bounds: 21 identifiers x 10 roles x 16 features (3520 cells; quick: control cells + 700 seed-rotated). Known findings listed by explicit cell.",
+    note="Bounds: 22 identifiers x 11 roles x 28 features x up to 5 access paths (direct / lambda / generator expression / nested def / lambda with a shadowing inner parameter) = 9 944 cells (quick: control cells + 1 000 seed-rotated); 408 nested / sequential pairs of the 16 constructs that introduce temporaries; suffix provenance (every random suffix of an output was drawn during that conversion). Known findings listed by explicit cell (builtins the generated code calls; __class__).",
     technique="symbolic co-execution of source and converted text under CrossHair (z3) over the capture matrix",
 )
 CLAIMED["C10"] = dict(
     category="model_checking",
     text="E1 on the real Configs/Cfg/convert_code_string: the API history (create options object, set option incl. illegal values, convert with object, convert without options, reseed random) is the symbolic variable; every history of length <= 3 (quick) / 4 (thorough) over the 27/31-action alphabet is explored; a ghost model predicts the option triple, conversions run concretely and are compared (alpha-normalised) with the same call made in fresh processes.",
     design_ref="DESIGN.md section 4, C10",
-    note="Module state is made pristine at the start of every path by re-importing oneliner. Bounds: <= 2 options objects, 2/3 programs, 3 values per option.",
+    note="Module state is made pristine at the start of every path by re-importing oneliner. Bounds: <= 2 options objects, 2/3 programs, 3 values per option, 3 conversions that are refused half-way; histories of length <= 3 over the full alphabet (quick and thorough), thorough also length <= 4 over the one-object sub-alphabet; the fresh-process reference of every entry is computed under 4 PYTHONHASHSEED values and must coincide.",
     technique="CrossHair (z3) exploration of symbolic API histories against a ghost model and a fresh-process reference table",
 )
 CLAIMED["C14"] = dict(
     category="translation_validation",
-    text="24 import statement forms x 5 placements are converted by the real converter; source and converted text are co-executed under CrossHair over a stub import system (same stub on both sides; the source reaches it through CPython's IMPORT_NAME/IMPORT_FROM byte-code) with a symbolic environment: which modules are already imported, attribute-vs-submodule, relative-import anchor, module attribute values. Order/count of module executions, identity and scope of bound names must coincide.",
+    text="24 import statement forms + every ordered pair of 10 single-alias items in one statement (91 forms) x 5 placements, plus 286 sequences of two import statements that bind the same name under control flow (first one conditional on a symbolic flag, if/else, rebinding in between, loops, a function called twice), are converted by the real converter; source and converted text are co-executed under CrossHair over a stub import system (same stub on both sides; the source reaches it through CPython's IMPORT_NAME/IMPORT_FROM byte-code) with a symbolic environment: which modules are already imported, attribute-vs-submodule, relative-import anchor, module attribute values. Order/count of module executions, identity and scope of bound names must coincide.",
     design_ref="DESIGN.md section 4, C14",
     note="The stub is validated against the real import system on a vendored on-disk copy of the tree in fresh subprocesses at check start.",
     technique="symbolic co-execution over a validated stub import system under CrossHair (z3)",
@@ -106,7 +106,7 @@ CLAIMED["C16"] = dict(
     category="other",
     text="E1 on the real oneliner/__main__.py source executed in-process with stubs for parse_args/open/print: free symbolic -C arguments (every string <= 4 chars; 'expr_wrapper=' + every value <= 4 chars; every name <= 3 chars + '=list') and selector slices over pools derived from the real options object (names x separators x values x {-o, stdout} x deprecated --unparser; pairs of -C options); reference: a CLI specification written without str.split; output compared with the library call.",
     design_ref="DESIGN.md section 4, C16",
-    note="Stub fidelity validated on 24 command lines against the real CLI in subprocesses; every counterexample is replayed on the real CLI. argparse's own tokenisation is outside the claim.",
+    note="Plus the I/O kernel (8 input file kinds x 5 output situations incl. -o naming the input file x 5 option lists) over an in-memory file system with open-mode and buffering semantics, and the white-space kernel (3 options x 11 kinds of white space x 4 positions). Stub fidelity validated on 224 command lines / cells against the real CLI in subprocesses; every counterexample is replayed on the real CLI. argparse's own tokenisation is outside the claim.",
     technique="CrossHair (z3) on the real CLI script with symbolic option arguments",
 )
 
@@ -114,13 +114,13 @@ CLAIMED["C06"] = dict(
     category="translation_validation",
     text="Scope trees (module + nested function/class/lambda/comprehension scopes, one role per scope for the tracked name from the complete role catalogue, every binding site storing a distinct symbolic value) are converted by the real converter and co-executed with the source under CrossHair: every read in every scope and the final globals must coincide for all values.",
     design_ref="DESIGN.md section 4, C06",
-    note="Bounds: depth 1 exhaustive, depth-2 chains (13 710), two-children trees incl. nested expression scopes (3 318), a fixed pool of 6 000 depth-3 trees; programs CPython rejects/raises on are outside. Known findings listed by explicit program (known/KF-C06-*.txt, 140 of 16 269 valid programs). Programs that hit the CPython 3.12/3.13 comprehension-inlining leak are excluded (source itself misbehaves).",
+    note="Bounds: depth 1 exhaustive, depth-2 chains (15 330), two-children trees incl. nested expression scopes (4 818), a fixed pool of 6 000 depth-3 trees, enumerated declaration chains (3 180), may-not-bind roles (246 trees, the binding depends on a symbolic value), generator-expression renderings of every comprehension scope (6 132); programs CPython rejects/raises on are outside. No open known finding (the concrete sweep of all ~25 000 valid programs x 4 configurations is clean after the repairs). Programs that hit the CPython 3.12/3.13 comprehension-inlining leak are excluded (source itself misbehaves).",
     technique="symbolic co-execution of source and converted text under CrossHair (z3)",
 )
 
 CLAIMED["C15"] = dict(
     category="other",
-    text="Partial, bounds stated: (1) z3 table queries over syntax tables - every text produced on hosts 3.10-3.13 by the custom unparser (complete (slot x kind) catalogue, 4 160 f-string shapes) and by both unparsers for the converted programs x 8 options is compiled by each runtime binary 3.8-3.13 (sources restricted to what 3.8 compiles and to trees valid on the host); (2) concrete co-execution replays of every distinct converted text on each runtime binary (not solver-decided, labelled so); (3) CrossHair co-execution on the second interpreter it exists for (3.11) with text produced by a 3.11 host.",
+    text="Partial, bounds stated: (1) z3 table queries over syntax tables - every text produced on hosts 3.10-3.13 by the custom unparser (complete (slot x kind) catalogue, 4 160 f-string shapes; on the main host also the depth-3 table slot(slot(kind)): quick 19 grammar-sensitive innermost kinds, thorough all) and by both unparsers for the converted programs x 8 options is compiled by each runtime binary 3.8-3.13 (sources restricted to what 3.8 compiles and to trees valid on the host); (2) concrete co-execution replays of every distinct converted text on each runtime binary (not solver-decided, labelled so); (3) CrossHair co-execution on the second interpreter it exists for (3.11) with text produced by a 3.11 host.",
     design_ref="DESIGN.md section 4, C15",
     note="The deciding step of the syntax tables is each interpreter's compile(); semantics on 3.8/3.9/3.10/3.13 only by concrete replays with 4 fixed valuations; 3.14 outside the bound. Known findings: ast.unparse quote re-use on 3.12+ hosts, nested f-string quote depth in the custom unparser (explicit rows).",
     technique="z3 queries over syntax tables built with the six interpreter binaries + CrossHair (z3) co-execution on 3.11 + concrete replays on the other runtimes",
